@@ -1146,3 +1146,24 @@ def _symbolic_for_arr(I, st, frame, it, spec):
 
 
 models.register_hook('symbolic_for', _symbolic_for_arr)
+
+
+@_np('where')
+def _where(I, args, kw):
+    if len(args) != 3:
+        raise Unsupported('np.where with one argument')
+    c, a, b = args
+    shape = None
+    for x in (c, a, b):
+        if isinstance(x, SArr):
+            shape = x.shape if shape is None else result_shape(SArr(shape, lambda q: 0), x)
+    if shape is None:
+        return sym.ite(c, a, b)
+    cc = broadcast_to(c, shape) if isinstance(c, SArr) else None
+    aa = broadcast_to(a, shape) if isinstance(a, SArr) else None
+    bb = broadcast_to(b, shape) if isinstance(b, SArr) else None
+    kinds = [x.kind if isinstance(x, SArr) else _kind_of(x) for x in (a, b)]
+    kind = 'O' if 'O' in kinds else ('f' if 'f' in kinds else 'i')
+    return SArr(shape, lambda q: _ite(cc.get(q) if cc is not None else c,
+                                      aa.get(q) if aa is not None else a,
+                                      bb.get(q) if bb is not None else b), kind, tag='where')
